@@ -121,6 +121,8 @@ def history(rng, length, tick_ms, codes_ok=(200, 201, 404), codes_bad=(500, 502,
             rid += 1
             running.append(rid)
             steps.append({"op": "start", "r": rid})
+            if rng.random() < 0.1:    # the client has already gone away (cancelled context) when the request reaches the breaker
+                steps[-1]["precancel"] = True
             if phase == "slow" or rng.random() < 0.3:
                 d = rng.choice(lat_ticks)
                 if d:
